@@ -126,6 +126,7 @@ class Gen:
         self.captures = {}
         self.pending = []
         self.in_loop = 0
+        self.nredef = 0
 
     # ------------------------------------------------------------------ expressions
     def const(self, t):
@@ -325,6 +326,8 @@ class Gen:
             kinds += ['def'] * 3
         if sc.fns:
             kinds += ['call'] * 3
+        if sc.fns and depth < 3 and not sc.nested and self.nredef < 3 and any(not sg.effects for sg in sc.fns.values()):
+            kinds += ['redef'] * 2
         kinds += ['aug', 'with', 'exotic', 'exotic']
         if 'untyped_assign' in P:
             kinds += ['untyped'] * 2
@@ -515,6 +518,12 @@ class Gen:
             return out + body
         if k == 'def':
             return self.gen_def(sc, depth, ind)
+        if k == 'redef':
+            # the same name defined again (on this path only, in a loop body, after a call, ...): after a join BOTH
+            # definitions reach the later call sites
+            self.nredef += 1
+            self.features.add('redefined_local_function')
+            return self.gen_def(sc, depth, ind, redef=r.choice(sorted(g for g, sg in sc.fns.items() if not sg.effects)))
         if k == 'call':
             names = sorted(g for g, sg in sc.fns.items() if not (sg.effects and self.in_loop))
             if not names:
@@ -657,13 +666,16 @@ class Gen:
         return body
 
     # ------------------------------------------------------------------ nested functions
-    def gen_def(self, sc, depth, ind):
+    def gen_def(self, sc, depth, ind, redef=None):
         r = self.rng
         P = self.profile
         pad = '    ' * ind
         bpad = '    ' * (ind + 1)
-        name = 'g%d' % self.nfn
-        self.nfn += 1
+        if redef is None:
+            name = 'g%d' % self.nfn
+            self.nfn += 1
+        else:
+            name = redef
         self.features.add('nested_def')
         nparams = r.choice([0, 0, 1, 1, 2])
         params = [('k%d' % i, r.choice(['int', 'str', 'float', 'bool'])) for i in range(nparams)]
@@ -687,6 +699,8 @@ class Gen:
         ret = r.choice(['int', 'str', 'float', 'bool', None, None])
         if 'closure_out' in P and r.random() < 0.6:
             params, ret, unanno = [], 'int', set()
+        if redef is not None:                        # same calling interface as the definition it may replace
+            params, ret, unanno = list(sc.fns[redef].params), sc.fns[redef].ret, set()
         inner = Scope(nested=True, pool=INNER_NAMES)
         inner.frozen = set()
         inner.volatile = set()
@@ -703,12 +717,12 @@ class Gen:
                 sc.frozen.add(x)                     # typed use allowed: the type of x may not change any more
             elif x not in sc.frozen or len(ts) > 1:
                 inner.agn.add(x)
-        self.captures[name] = set(capt)
+        self.captures[name] = set(capt) | (self.captures.get(name, set()) if redef is not None else set())
         if capt:
             self.features.add('closure_read')
-        inner.fns = {g: sig for g, sig in sc.fns.items() if not sig.effects}
+        inner.fns = {g: sig for g, sig in sc.fns.items() if not sig.effects and g != name}
         head, body, effects = [], [], {}
-        nl = [x for x in capt if x not in sc.frozen and x in OUTER_NAMES]
+        nl = [x for x in capt if x not in sc.frozen and x in OUTER_NAMES] if redef is None else []
         if nl and r.random() < 0.6:
             x = r.choice(nl)
             cur = sc.env[x]
